@@ -8,6 +8,7 @@ import (
 	"errors"
 	"flag"
 	"fmt"
+	"io"
 	"reflect"
 	"strings"
 
@@ -15,14 +16,17 @@ import (
 	"github.com/open2b/scriggo/ast"
 	"github.com/open2b/scriggo/ast/astutil"
 	"github.com/open2b/scriggo/native"
+	"github.com/yuin/goldmark"
+	"github.com/yuin/goldmark/renderer/html"
 )
 
 // C06: autoescaping confines every shown untrusted value to its syntactic slot.
 //
 // The driver has two modes and no oracle in either: it concretises a document (a sequence of
 // fragments exported by TLC), puts a show statement at a hole, calls the public API and logs.
-// A case may carry "fmt": "HTML" (default) | "JS" | "CSS" | "JSON": the format of the template file
-// (index.html / .js / .css / .json; imported and rendered files have the same extension).
+// A case may carry "fmt": "HTML" (default) | "JS" | "CSS" | "JSON" | "MD": the format of the template file
+// (index.html / .js / .css / .json / .md; imported and rendered files have the same extension unless
+// the via names another one).
 //
 //   -mode ctx   case {id, frags}: the document is built with `{{ x }}` appended and
 //               BuildOptions.ExpandedTransformer records the Context the real lexer gave to that
@@ -36,7 +40,18 @@ import (
 //               same Go type and shape).  via selects how the value reaches the hole: "direct"
 //               `{{ x }}`, "macro" `{{ M(x) }}` with M declared at the top of the file, "macroin" M
 //               declared at the hole, "import" M imported from another file, "render" / "rendertxt"
-//               `{{ render "part.html" }}` / `{{ render "part.txt" }}` whose only content is `{{ x }}`.
+//               `{{ render "part.html" }}` / `{{ render "part.txt" }}` whose only content is `{{ x }}`;
+//               "macro:R" (R = string, html, css, js, json, markdown) `{{ M(x) }}` with M declared with
+//               the result type R (its body is lexed and escaped for R, the call is shown in the
+//               context of the hole), "import:E" (E = html, md, js, css, json, txt) M imported from a
+//               file with the extension E.
+//               "holes" / "after": boundaries of further shows `{{ y }}` of the same document before / after
+//               the hole, y a string variable whose value is always the benign "x" (several shows on one
+//               renderer; only the show at "hole" receives the dictionary).  "vset": "attr" renders only the part of the dictionary
+//               that matters for attribute values (default: all of it).
+//               For a Markdown file every output is also converted by goldmark (plain CommonMark, raw HTML
+//               kept: html.WithUnsafe) and the conversion is logged as "html": the Trace specification
+//               compares the structure of the conversions.
 //               Observation {id, frags, hole, via, pt, outs: [{v, c, t, b, oc, out}]}: v value index,
 //               c value class, t 1 for the trusted types, b index (1-based, in outs) of the benign
 //               partner, oc "ok" | "builderr" | "runerr" | "hostpanic", out the rendered bytes.
@@ -88,7 +103,13 @@ func init() {
 		"startscript", `<script>`, "startcomment", `<!--`, "word", `alert`,
 		// end tags do not need their `>`: a space or `/` after the name is enough
 		"endscriptsp", `</script x`, "endscriptslash", `</script/`, "endstylesp", `</style x`, "endtitlesp", `</title x`,
-		"endtextareasp", `</textarea x`, "dblescape", `<!--<script `, "endxmpsp", `</xmp x`)
+		"endtextareasp", `</textarea x`, "dblescape", `<!--<script `, "endxmpsp", `</xmp x`,
+		// Markdown syntax (inline and, after a line ending, block level)
+		"mdemph", `*x*`, "mdemph2", `_x_`, "mdstrong", `**x**`, "mdlink", `[a](http://e.example/)`, "mdimg", `![a](b)`,
+		"mdcode", "`a`", "mdautolink", `<http://e.example/>`, "mdhtml", `<b>a</b>`, "mdheading", `# a`, "mdlist", `- a`,
+		"mdquote", `> a`, "mdhr", `***`, "mdolist", `1. a`, "mdfence", "```", "mdnlemph", "a\n*x*", "mdnlheading", "a\n# b",
+		"mdnllist", "a\n- b", "mdnlfence", "a\n```\nb", "mdnlsetext", "a\n===", "mdnlindent", "a\n\n    b", "mdnltag", "a\n<b>c</b>",
+		"mdref", `[a]: http://e.example/`, "mdentity", `&ast;x&ast;`, "mdbsl", `\*x\*`)
 	add("int", 1, false, "int", 1234567)
 	add("negint", -1, false, "negint", -7)
 	add("float", 1.5, false, "float", 2.25)
@@ -125,24 +146,65 @@ func typeOf(v any) reflect.Type {
 
 type kase struct {
 	ID    int             `json:"id"`
-	Fmt   string          `json:"fmt"` // "HTML" (default), "JS", "CSS", "JSON": the format (extension) of the template file
+	Fmt   string          `json:"fmt"` // "HTML" (default), "JS", "CSS", "JSON", "MD": the format (extension) of the template file
 	Frags [][]int         `json:"frags"`
 	Hole  int             `json:"hole"`
+	Holes []int           `json:"holes"` // further shows `{{ y }}` (y is always "x") before the hole: their boundaries (<= hole)
+	After []int           `json:"after"` // further shows `{{ y }}` after the hole: their boundaries (>= hole)
+	Vset  string          `json:"vset"`  // "" = the whole dictionary, "attr" = attrSet
 	Via   string          `json:"via"`
 	PT    json.RawMessage `json:"pt"`
 }
 
+// split returns the text before and after the boundary hole.  The other shows of the case are
+// `{{ y }}`: those of k.Holes (boundaries <= hole) come before the hole, those of k.After (boundaries
+// >= hole) after it; a boundary may occur several times.
 func split(k *kase, hole int) (pre, suf string) {
 	var a, b bytes.Buffer
-	for i, f := range k.Frags {
-		if i < hole {
-			a.Write(drv.BytesOf(f))
-		} else {
-			b.Write(drv.BytesOf(f))
+	ys := func(list []int, i int, w *bytes.Buffer) {
+		for _, h := range list {
+			if h == i {
+				w.WriteString("{{ y }}")
+			}
+		}
+	}
+	for i := 0; i <= len(k.Frags); i++ {
+		if i <= hole {
+			ys(k.Holes, i, &a)
+		}
+		if i >= hole {
+			ys(k.After, i, &b)
+		}
+		if i < len(k.Frags) {
+			if i < hole {
+				a.Write(drv.BytesOf(k.Frags[i]))
+			} else {
+				b.Write(drv.BytesOf(k.Frags[i]))
+			}
 		}
 	}
 	return a.String(), b.String()
 }
+
+// the benign value of the other holes
+var yval = "x"
+
+// attrSet: the classes of the dictionary rendered when a case says "vset": "attr"
+var attrSet = map[string]bool{}
+
+func init() {
+	for _, c := range []string{"benign:string", "dq", "sq", "lt", "gt", "amp", "space", "eq", "slash", "bq", "tab", "nl", "cr", "ff", "empty",
+		"qmark", "hash", "comma", "semi", "colon", "bslash", "quotent", "aposent", "nul", "attrinj", "tagbreak", "selfclose", "jsurl", "word",
+		"benign:stringer", "stringer:space", "stringer:tagbreak", "benign:error", "error:space", "benign:strings", "strings2",
+		"benign:int", "int", "benign:html", "html"} {
+		attrSet[c] = true
+	}
+}
+
+// goldmark as a plain CommonMark converter that keeps raw HTML
+var md = goldmark.New(goldmark.WithRendererOptions(html.WithUnsafe()))
+
+func convert(src []byte, out io.Writer) error { return md.Convert(src, out) }
 
 func ext(format string) string {
 	switch format {
@@ -152,6 +214,8 @@ func ext(format string) string {
 		return ".css"
 	case "JSON":
 		return ".json"
+	case "MD":
+		return ".md"
 	}
 	return ".html"
 }
@@ -178,7 +242,16 @@ func files(format, pre, suf, via string) (scriggo.Files, string, bool) {
 		fs["part.txt"] = []byte("{{ x }}")
 		fs[main] = []byte(pre + `{{ render "part.txt" }}` + suf)
 	default:
-		return nil, "", false
+		if r, ok := strings.CutPrefix(via, "macro:"); ok {
+			// a macro with an explicit result type: its body is a template of that format
+			fs[main] = []byte("{% macro M(v T) " + r + " %}{{ v }}{% end macro %}" + pre + "{{ M(x) }}" + suf)
+		} else if x, ok := strings.CutPrefix(via, "import:"); ok {
+			// a macro imported from a file of another format
+			fs["imp."+x] = []byte("{% macro M(v T) %}{{ v }}{% end macro %}")
+			fs[main] = []byte(`{% import "imp.` + x + `" %}` + pre + "{{ M(x) }}" + suf)
+		} else {
+			return nil, "", false
+		}
 	}
 	return fs, main, true
 }
@@ -221,7 +294,8 @@ func contextAt(k *kase, hole int) (ctx, url int) {
 	x := ""
 	v := &showVisitor{}
 	_, err := scriggo.BuildTemplate(fs, main, &scriggo.BuildOptions{
-		Globals: native.Declarations{"x": &x},
+		Globals:           native.Declarations{"x": &x, "y": &yval},
+		MarkdownConverter: convert,
 		ExpandedTransformer: func(tree *ast.Tree) error {
 			astutil.Walk(v, tree)
 			return nil
@@ -293,7 +367,8 @@ func build(fs scriggo.Files, main string, typ reflect.Type) (t *scriggo.Template
 		}
 	}()
 	return scriggo.BuildTemplate(fs, main, &scriggo.BuildOptions{
-		Globals: native.Declarations{"x": reflect.Zero(reflect.PointerTo(typ)).Interface(), "T": typ},
+		Globals:           native.Declarations{"x": reflect.Zero(reflect.PointerTo(typ)).Interface(), "T": typ, "y": &yval},
+		MarkdownConverter: convert,
 	})
 }
 
@@ -303,10 +378,23 @@ func confObs(k *kase) []any {
 	if !ok {
 		panic("driver: unknown via " + k.Via)
 	}
-	outs := make([]any, 0, len(dict))
+	// the part of the dictionary this case renders; pos = position in outs (1-based) of every entry
+	pos := make([]int, len(dict))
+	n := 0
+	for i, e := range dict {
+		if k.Vset == "attr" && !attrSet[e.class] {
+			continue
+		}
+		n++
+		pos[i] = n
+	}
+	outs := make([]any, 0, n)
 	built := map[reflect.Type]*scriggo.Template{}
 	failed := map[reflect.Type]string{}
 	for i, e := range dict {
+		if pos[i] == 0 {
+			continue
+		}
 		typ := typeOf(e.val)
 		t, have := built[typ]
 		if _, bad := failed[typ]; !have && !bad {
@@ -322,9 +410,12 @@ func confObs(k *kase) []any {
 				built[typ] = t
 			}
 		}
-		b := e.benign + 1
-		if e.benign < 0 {
-			b = i + 1
+		b := pos[i]
+		if e.benign >= 0 {
+			b = pos[e.benign]
+			if b == 0 {
+				panic("driver: value set without the benign partner of " + e.class)
+			}
 		}
 		tr := 0
 		if e.trusted {
@@ -338,6 +429,13 @@ func confObs(k *kase) []any {
 			rec["oc"] = oc
 			if oc == "ok" {
 				rec["out"] = drv.Ints(out)
+				if k.Fmt == "MD" {
+					var h bytes.Buffer
+					if err := md.Convert(out, &h); err != nil {
+						rec["oc"], rec["msg"] = "converr", err.Error()
+					}
+					rec["html"] = drv.Ints(h.Bytes())
+				}
 			} else {
 				rec["out"] = []int{}
 				rec["msg"] = string(out)
@@ -349,7 +447,15 @@ func confObs(k *kase) []any {
 	if pt == nil {
 		pt = json.RawMessage(`{}`)
 	}
-	return []any{map[string]any{"id": k.ID, "fmt": k.Fmt, "frags": k.Frags, "hole": k.Hole, "via": k.Via, "pt": pt, "outs": outs}}
+	holes, after := k.Holes, k.After
+	if holes == nil {
+		holes = []int{}
+	}
+	if after == nil {
+		after = []int{}
+	}
+	return []any{map[string]any{"id": k.ID, "fmt": k.Fmt, "frags": k.Frags, "hole": k.Hole, "holes": holes, "after": after, "vset": k.Vset,
+		"via": k.Via, "pt": pt, "outs": outs}}
 }
 
 func main() {
